@@ -3,6 +3,7 @@
 package internal
 
 import (
+	"unsafe"
 	"fmt"
 	"math/bits"
 	"os"
@@ -105,6 +106,17 @@ type vkNest struct {
 	P vkPad
 	C int8
 	D [2]vkPad
+}
+
+// three struct levels deep: a padded struct inside a struct that itself sits at a non-zero offset of the key
+type vkMid struct {
+	X int16
+	P vkPad
+}
+type vkDeep struct {
+	H int32
+	M vkMid
+	T int8
 }
 type vkNamed int
 type vkStr struct {
@@ -267,6 +279,25 @@ func TestVerifKeys(t *testing.T) {
 				return npool[j]
 			}
 			return vkNest{P: vkPad{int8(i), ival(i)}, C: int8(i * 3), D: [2]vkPad{{int8(i), 5}, {int8(i + 1), 6}}}
+		}, nil)
+		dpool := make([]vkDeep, 32)
+		vkeysRun(tr, "struct-three-levels-deep-padded", r, 30, func(i, v int) vkDeep {
+			if v == 2 {
+				// a slot full of 0xff bytes, then assigned field by field: the padding keeps the garbage
+				j := i % len(dpool)
+				dpool[j] = vkDeep{H: -1, M: vkMid{X: -1, P: vkPad{A: -1, B: -1}}, T: -1}
+				pd := (*[unsafe.Sizeof(vkDeep{})]byte)(unsafe.Pointer(&dpool[j]))
+				for b := range pd {
+					pd[b] = 0xff
+				}
+				dpool[j].H = int32(i)
+				dpool[j].M.X = int16(i * 5)
+				dpool[j].M.P.A = int8(i)
+				dpool[j].M.P.B = ival(i)
+				dpool[j].T = int8(i * 3)
+				return dpool[j]
+			}
+			return vkDeep{H: int32(i), M: vkMid{X: int16(i * 5), P: vkPad{int8(i), ival(i)}}, T: int8(i * 3)}
 		}, nil)
 		vkeysRun(tr, "struct-mixed", r, 30, func(i, v int) vkMix {
 			k := vkMix{i%2 == 0, uint16(ival(i)), [3]byte{byte(i), byte(i >> 1), 7}}
